@@ -569,6 +569,15 @@ func (fc *funcContext) RegisterLocalVar(name string) int {
 	return ret
 }
 
+// StartScopeHere moves the start of scope of the variables the current block has registered so far to
+// the next instruction: the hidden variables of a for loop come into being when their initialisers have
+// all been evaluated, a function called by an initialiser does not see them through debug.getlocal.
+func (fc *funcContext) StartScopeHere() {
+	for _, info := range fc.Block.dbgLocals {
+		info.StartPc = fc.Code.LastPC() + 1
+	}
+}
+
 func (fc *funcContext) FindLocalVarAndBlock(name string) (int, *codeBlock) {
 	for block := fc.Block; block != nil; block = block.Parent {
 		if index := block.LocalVars.Find(name); index > -1 {
@@ -1131,6 +1140,7 @@ func compileNumberForStmt(context *funcContext, stmt *ast.NumberForStmt) { // {{
 	ecupdate(ec, ecLocal, rstep, 0)
 	compileExpr(context, reg, stmt.Step, ec)
 
+	context.StartScopeHere()
 	code.AddASbx(OP_FORPREP, rindex, 0, sline(stmt))
 
 	context.RegisterLocalVar(stmt.Name)
@@ -1167,6 +1177,7 @@ func compileGenericForStmt(context *funcContext, stmt *ast.GenericForStmt) { // 
 	hidden := []string{"(for generator)", "(for state)", "(for control)"}
 	compileRegAssignment(context, hidden, stmt.Exprs, context.RegTop()-3, 3, sline(stmt))
 
+	context.StartScopeHere()
 	code.AddASbx(OP_JMP, 0, fllabel, sline(stmt))
 
 	for _, name := range stmt.Names {
